@@ -37,6 +37,8 @@ def parseObs (j : Json) : Except String Obs := do
                    hasIcon := ← getBool j "has_icon", iconPos := ← optStr j "ip", modDx := ← getRat j "mod_dx", modDy := ← getRat j "mod_dy" }
          nkids := ← getNat j "nkids" }
 
+def showBox (b : Box) : String := s!"[x={b.x} y={b.y} w={b.w} h={b.h}]"
+
 def absR (a : Rat) : Rat := if a < 0 then -a else a
 
 /-- float64 vs exact arithmetic -/
@@ -72,11 +74,15 @@ def pairsLt (n : Nat) : List (Nat × Nat) :=
 def disjoint (a b : Box) : Bool :=
   decide (a.x + a.w ≤ b.x + tol ∨ b.x + b.w ≤ a.x + tol ∨ a.y + a.h ≤ b.y + tol ∨ b.y + b.h ≤ a.y + tol)
 
+/-- "inside the container" is judged to half a pixel: non-rectangular containers (cloud, oval, …) place their content
+    through float32/ratio arithmetic that is off by hundredths of a pixel (seen: 0.0105 px on a cloud) -/
+def tolInside : Rat := 1 / 2
+
 def inside (root b : Box) : Bool :=
-  decide (root.x ≤ b.x + tol ∧ root.y ≤ b.y + tol ∧ b.x + b.w ≤ root.x + root.w + tol ∧ b.y + b.h ≤ root.y + root.h + tol)
+  decide (root.x ≤ b.x + tolInside ∧ root.y ≤ b.y + tolInside ∧ b.x + b.w ≤ root.x + root.w + tolInside ∧ b.y + b.h ≤ root.y + root.h + tolInside)
 
 /-- Spec-on-impl for a grid whose lines are known -/
-def specLines (cx : Ctx) (evenly : Bool) (obs : Array Obs) (idx : Array (Nat × Nat)) : Option (String × String) := Id.run do
+def specLines (cx : Ctx) (evenly exactKids : Bool) (obs : Array Obs) (idx : Array (Nat × Nat)) : Option (String × String) := Id.run do
   let n := obs.size
   for (a, b) in pairsLt n do
     let oa := obs[a]!
@@ -86,26 +92,26 @@ def specLines (cx : Ctx) (evenly : Bool) (obs : Array Obs) (idx : Array (Nat × 
     let (la, pa) := idx[a]!
     let (lb, pb) := idx[b]!
     if !disjoint oa.box ob.box then
-      return some ("cells-overlap", s!"cells {a} and {b}: {repr oa.box} {repr ob.box}")
+      return some ("cells-overlap", s!"cells {a} and {b}: {showBox oa.box} {showBox ob.box}")
     -- declaration order along the lines + the configured gap between neighbours (at least; exactly below)
     if la == lb then
       if !decide (ba.m + ba.ms + cx.gm ≤ bb.m + tol) then
-        return some ("order-or-gap-in-line", s!"cells {a},{b} of line {la}: {repr oa.box} {repr ob.box} gap {cx.gm}")
+        return some ("order-or-gap-in-line", s!"cells {a},{b} of line {la}: {showBox oa.box} {showBox ob.box} gap {cx.gm}")
     else if la < lb then
       if !decide (ba.c + ba.cs + cx.gc ≤ bb.c + tol) then
-        return some ("order-or-gap-across-lines", s!"cells {a} (line {la}) and {b} (line {lb}): {repr oa.box} {repr ob.box} gap {cx.gc}")
+        return some ("order-or-gap-across-lines", s!"cells {a} (line {la}) and {b} (line {lb}): {showBox oa.box} {showBox ob.box} gap {cx.gc}")
     else
       return some ("line-order", s!"cell {a} in line {la} after cell {b} in line {lb}")
-    if decoPlain oa.deco && decoPlain ob.deco then
+    if decoPlain oa.deco && decoPlain ob.deco && (exactKids || (oa.nkids == 0 && ob.nkids == 0)) then
       -- undecorated cells: the raw boxes are the slots, so the exact clauses apply to them
       if la == lb then
         if !(close ba.c bb.c && close ba.cs bb.cs) then
-          return some ("line-not-uniform", s!"cells {a},{b} of line {la} differ across the line: {repr oa.box} {repr ob.box}")
+          return some ("line-not-uniform", s!"cells {a},{b} of line {la} differ across the line: {showBox oa.box} {showBox ob.box}")
         if pb == pa + 1 && !close (ba.m + ba.ms + cx.gm) bb.m then
-          return some ("gap-not-exact", s!"neighbours {a},{b} of line {la}: {repr oa.box} {repr ob.box} gap {cx.gm}")
+          return some ("gap-not-exact", s!"neighbours {a},{b} of line {la}: {showBox oa.box} {showBox ob.box} gap {cx.gm}")
       if evenly && pa == pb then
         if !(close ba.m bb.m && close ba.ms bb.ms) then
-          return some ("column-not-uniform", s!"cells {a},{b} at position {pa} of lines {la},{lb}: {repr oa.box} {repr ob.box}")
+          return some ("column-not-uniform", s!"cells {a},{b} at position {pa} of lines {la},{lb}: {showBox oa.box} {showBox ob.box}")
   return none
 
 /-- Spec-on-impl when the lines are not known (dynamic grid seen only through its final boxes) -/
@@ -116,9 +122,9 @@ def specWeak (cx : Ctx) (obs : Array Obs) : Option (String × String) := Id.run 
     let ba := toB cx.rowDirected oa.box
     let bb := toB cx.rowDirected ob.box
     if !disjoint oa.box ob.box then
-      return some ("cells-overlap", s!"cells {a} and {b}: {repr oa.box} {repr ob.box}")
+      return some ("cells-overlap", s!"cells {a} and {b}: {showBox oa.box} {showBox ob.box}")
     if !decide (ba.m + ba.ms + cx.gm ≤ bb.m + tol ∨ ba.c + ba.cs + cx.gc ≤ bb.c + tol) then
-      return some ("order-or-gap", s!"cells {a},{b}: {repr oa.box} {repr ob.box} gaps {cx.gm} {cx.gc}")
+      return some ("order-or-gap", s!"cells {a},{b}: {showBox oa.box} {showBox ob.box} gaps {cx.gm} {cx.gc}")
   return none
 
 def handle (j : Json) : Except String Verdict := do
@@ -143,15 +149,24 @@ def handle (j : Json) : Except String Verdict := do
                     gc := if d.rowDirected then (vg : Rat) else (hg : Rat) }
   let evenly := d.rows != 0 && d.cols != 0
   -- every cell inside the grid container
+  let explW := (getBool i "explicit_w").toOption.getD false
+  let explH := (getBool i "explicit_h").toOption.getD false
   for (ob, k) in obs.zipIdx do
     if !inside root ob.box then
-      return .specfalse "cell-outside-container" s!"cell {k} {repr ob.box} vs container {repr root}"
+      -- an explicit `width`/`height` on the grid container is honoured even when the cells need more (known finding):
+      -- separate signature, only when the overflow is along an axis whose size the user fixed
+      let okX := decide (root.x ≤ ob.box.x + tolInside ∧ ob.box.x + ob.box.w ≤ root.x + root.w + tolInside)
+      let okY := decide (root.y ≤ ob.box.y + tolInside ∧ ob.box.y + ob.box.h ≤ root.y + root.h + tolInside)
+      let shape := (getStr i "shape").toOption.getD ""
+      let sig := if (okX || explW) && (okY || explH) then "cell-outside-container:explicit-size"
+        else if shape == "person" then "cell-outside-container:person-shape" else "cell-outside-container"
+      return .specfalse sig s!"cell {k} {showBox ob.box} vs container {showBox root} explicit width={explW} height={explH}"
   if evenly && d.rows * d.cols < n then
     return .specfalse "capacity" s!"{d.rows}x{d.cols} < {n} cells"
   if kind == "e2e" then
     if evenly then
       let L := if d.rowDirected then d.cols else d.rows
-      match specLines cx true obs.toArray (lineIdx (chunkRuns L n)).toArray with
+      match specLines cx true false obs.toArray (lineIdx (chunkRuns L n)).toArray with
       | some (sig, det) => return .specfalse sig det
       | none => return .ok
     else
@@ -175,7 +190,7 @@ def handle (j : Json) : Except String Verdict := do
         return .specfalse "best-layout-contract" s!"getBestLayout returned {rs.length} lines for rows={d.rows} cols={d.cols}"
       pure rs
   if (lineIdx runs).length != n then throw "line index"
-  match specLines cx evenly obs.toArray (lineIdx runs).toArray with
+  match specLines cx evenly true obs.toArray (lineIdx runs).toArray with
   | some (sig, det) => return .specfalse sig det
   | none => pure ()
   if let .ok false := getBool o "kids_ok" then
@@ -193,10 +208,10 @@ def handle (j : Json) : Except String Verdict := do
     let ty := o0.box.y - m0.box.y
     for ((mc, ob), k) in (m.cells.zip obs).zipIdx do
       if !(close (mc.box.x + tx) ob.box.x && close (mc.box.y + ty) ob.box.y && close mc.box.w ob.box.w && close mc.box.h ob.box.h) then
-        return .mismatch "box" s!"cell {k}: model {repr mc.box} shifted by ({tx},{ty}) vs impl {repr ob.box}"
+        return .mismatch "box" s!"cell {k}: model {showBox mc.box} shifted by ({tx},{ty}) vs impl {showBox ob.box}"
       -- glue lemma instance: the box lies inside its slot
       if !decide (mc.slot.x ≤ mc.box.x ∧ mc.slot.y ≤ mc.box.y ∧ mc.box.x + mc.box.w ≤ mc.slot.x + mc.slot.w ∧ mc.box.y + mc.box.h ≤ mc.slot.y + mc.slot.h) then
-        return .mismatch "box-outside-slot" s!"cell {k}: model box {repr mc.box} slot {repr mc.slot}"
+        return .mismatch "box-outside-slot" s!"cell {k}: model box {showBox mc.box} slot {showBox mc.slot}"
   | _, _ => pure ()
   return .ok
 
